@@ -190,13 +190,13 @@ WHO_FROM_JSON = {
 }
 
 
-def rule_R3(ctx, prj):
+def rule_R3(ctx, prj, structural_reader=True):
     ctx.rule("R3", "report and findings obtain every report (also the --diff one) only through utils.read_report, where "
                    "parsing is dominated by get_report_version(...) != Report.VERSION -> typer.Exit; who-may-call table "
-                   "for ReportReader.from_json", floor=4)
+                   "for ReportReader.from_json", floor=4 if structural_reader else 2)
     rr = prj.func("codelimit.utils:read_report")
-    fj = [c for c in rr.calls() if prj.resolve_callee_name(rr, c).endswith(":ReportReader.from_json")]
-    if not fj:
+    fj = [c for c in rr.calls() if prj.resolve_callee_name(rr, c).endswith(":ReportReader.from_json")] if structural_reader else []
+    if not fj and structural_reader:
         raise AnalysisError("utils.read_report no longer calls ReportReader.from_json")
     for c in fj:
         atoms = []
@@ -215,7 +215,9 @@ def rule_R3(ctx, prj):
             ctx.viol("R3", "read_report/version-refusal", rr.site(c), "read_report parses a report without first refusing documents of another version")
     # the refusal must leave through typer.Exit
     exits = [n for n in rr.walk() if isinstance(n, ast.Raise) and "Exit" in unparse(n.exc)]
-    if len(exits) >= 2:
+    if not structural_reader:
+        pass
+    elif len(exits) >= 2:
         ctx.ok("R3", rr.site(exits[-1]), "read_report: missing report and version mismatch both raise typer.Exit")
     else:
         ctx.viol("R3", "read_report/exit", rr.site(), "read_report does not raise typer.Exit on a version mismatch")
@@ -285,6 +287,73 @@ def rule_R4(ctx, prj):
         ctx.ok("R4", fi.site(), "cached report is only read in scan_codebase / scan_path / _scan_file")
 
 
+def rule_R5_evaluated(ctx, prj) -> bool:
+    from ..absint import PyRaise, Unknown
+    from .. import cache_eval as CE
+    ctx.rule("R5", "the cache evaluated: scan_path with a cached report reuses exactly the entry stored under the file's own "
+                   "root-relative path whose checksum equals the file's (loc and measurements taken over, the file not read), "
+                   "analyses every other file again (changed checksum; same bytes recorded under another path), drops entries of "
+                   "files that are gone or excluded, returns a new codebase and leaves the cached one untouched; "
+                   "_read_cached_report hands out a report only for a document of the running version (another version, no "
+                   "version key, version null, not JSON, absent file: none); read_report returns the report of the running "
+                   "version and leaves through typer.Exit otherwise", floor=10)
+    sf = prj.func(f"{SC}:_scan_file")
+    rc = prj.func("codelimit.commands.scan:_read_cached_report")
+    rr = prj.func("codelimit.utils:read_report")
+    try:
+        out, read, (before, after), same = CE.cached_scan(prj)
+        checks = [
+            ("a.py", (99, [55, 44]), "the unchanged file a.py takes over the cached line total 99 and measurements [55, 44]", "reuse"),
+            ("d.js", (47, [40, 7]), "d.js, whose cached checksum differs from the file's, is analysed again", "stale-reuse"),
+            ("sub/s.py", (47, [40, 7]), "sub/s.py is analysed again although an entry with its checksum is cached under the key 's.py'", "lookup-by-search"),
+        ]
+        for key, want, what, kind in checks:
+            got = out.get(key)
+            if got is None:
+                ctx.viol("R5", f"_scan_file/{kind}/missing", sf.site(), f"{key} is missing from the result of a cache-assisted scan")
+            elif (got[0], got[1]) != want:
+                ctx.viol("R5", f"_scan_file/{kind}", sf.site(), f"cache-assisted scan: {key} gets line total {got[0]} and measurements {got[1]}; required {want[0]} and {want[1]} ({what})")
+            else:
+                ctx.ok("R5", sf.site(), what)
+        for gone in ("ghost.py", "skip.py", "s.py"):
+            if gone in out:
+                ctx.viol("R5", "scan_path/cached-entry-kept", sf.site(), f"the cached entry {gone} (file gone, excluded or never at that path) appears in the result of the new scan")
+            else:
+                ctx.ok("R5", sf.site(), f"cached entry {gone} is not carried over")
+        if "/w/proj/a.py" in read:
+            ctx.viol("R5", "_scan_file/reused-but-read", sf.site(), "a.py is read and analysed although its cached entry is reused")
+        if same or before != after:
+            ctx.viol("R5", "scan_path/result-is-cache", prj.func(f"{SC}:scan_path").site(), "the scan returns or modifies the cached codebase instead of building a new one "
+                     f"(cached keys before {before}, after {after})")
+        else:
+            ctx.ok("R5", sf.site(), "the result is a new codebase; the cached one is unchanged")
+        docs = CE.cache_documents(prj)
+        docs["absent file"] = None
+        for case, text in docs.items():
+            got = CE.read_cached(prj, text)
+            want = "report" if case == "running version" else "none"
+            if got == want:
+                ctx.ok("R5", rc.site(), f"_read_cached_report, {case}: {got}")
+            else:
+                ctx.viol("R5", f"_read_cached_report/{case.replace(' ', '-')}", rc.site(), f"for a cache document with {case} _read_cached_report gives {got}; required {want}"
+                         + (": results recorded by another version of the tool (or of unknown origin) are reused" if got == "report" else ""))
+            if case == "not JSON":
+                continue
+            got = CE.read_report(prj, text)
+            want = "report" if case == "running version" else "exit"
+            if got == want:
+                ctx.ok("R5", rr.site(), f"read_report, {case}: {got}")
+            else:
+                ctx.viol("R5", f"read_report/{case.replace(' ', '-')}", rr.site(), f"for a report with {case} read_report gives {got}; required {want}"
+                         + (": report / findings display a report written by another version" if got == "report" else ""))
+    except (Unknown, PyRaise) as e:
+        ctx.info(f"cache not evaluable ({type(e).__name__}: {e}); structural rules decide")
+        ctx.rule("R5", "cache not evaluable by the interpreter: structural rules R1-R4 decide", floor=0)
+        ctx.violations[:] = [v for v in ctx.violations if v.rule != "R5"]
+        return False
+    return True
+
+
 def run(ctx, prj: Project):
     ctx.explanation = (
         "Reuse discipline behind C09, decided structurally: provenance of the cached entry (same root-relative key, no "
@@ -294,6 +363,9 @@ def run(ctx, prj: Project):
         "Equality of cached and fresh reports over all edit histories is NOT decided by this family.")
     ctx.not_decided = ["equality of cache-assisted and from-scratch reports over all finite edit histories"]
     ctx.trust("md5 of the complete file bytes identifies content (collisions ignored)", "CPython ast")
+    if rule_R5_evaluated(ctx, prj):
+        rule_R3(ctx, prj, structural_reader=False)      # who obtains reports how stays a call-graph rule
+        return
     rule_R1(ctx, prj)
     rule_R2(ctx, prj)
     rule_R3(ctx, prj)
